@@ -68,6 +68,7 @@ func (m *ModSet) keys() []string {
 }
 
 type Exec struct {
+	siteAlias map[ssa.Instruction]string
 	frameUnless string // set by models around a frame check: condition under which nothing is written
 	ai *assignInfo
 	v        *Verifier
@@ -276,6 +277,21 @@ func (x *Exec) siteIDs() {
 				}
 			case *ssa.Return:
 				name = "return"
+			}
+			if st, ok := in.(*ssa.Store); ok {
+				// stores into a field are also addressable as "store:<field>" (for "at" clauses)
+				if fa, ok := st.Addr.(*ssa.FieldAddr); ok {
+					stt := fa.X.Type().Underlying().(*types.Pointer).Elem().Underlying().(*types.Struct)
+					an := "store:" + stt.Field(fa.Field).Name()
+					cnt[an]++
+					if cnt[an] > 1 {
+						an = fmt.Sprintf("%s#%d", an, cnt[an])
+					}
+					if x.siteAlias == nil {
+						x.siteAlias = map[ssa.Instruction]string{}
+					}
+					x.siteAlias[in] = an
+				}
 			}
 			if name == "" {
 				continue
